@@ -97,7 +97,22 @@ func runSIGNONLY(c *Ctx) {
 					pos := P.InstrPos(x)
 					fn := x.Parent()
 					what := fmt.Sprintf("comparison result tested %s %d in %s", x.Op, k, ir.FuncName(fn))
-					if isK && k == 0 {
+					// tests that still only look at the sign: x < 1 ≡ x <= 0, x >= 1 ≡ x > 0, x > -1 ≡ x >= 0, x <= -1 ≡ x < 0
+					op := x.Op
+					if x.Y == v { // constant on the left: k OP x
+						switch op {
+						case token.LSS:
+							op = token.GTR
+						case token.GTR:
+							op = token.LSS
+						case token.LEQ:
+							op = token.GEQ
+						case token.GEQ:
+							op = token.LEQ
+						}
+					}
+					signOnly := isK && (k == 0 || (k == 1 && (op == token.LSS || op == token.GEQ)) || (k == -1 && (op == token.GTR || op == token.LEQ)))
+					if signOnly {
 						c.OK(pos, what, "by sign", true)
 					} else if isK {
 						c.Violation(fn, pos, fmt.Sprintf("comparison result tested against %d", k),
